@@ -229,9 +229,19 @@ def strip_prefixes(ctx, rule):
         return
     roles = {src[0]: "source", (pfx or cow)[0]: "prefix"}
     sl = [(bi, q.shape(b.expr_of_call(t), roles)) for bi, t in q.calls_to(b, "Index::index")]
-    ctx.check(sorted(set(s for _, s in sl)) in (["source[RangeFrom{start:String::len(prefix)}]"], ["source[RangeFrom{start:str::len(prefix)}]"]), rule, fn, "slice", "the stripped name is source[prefix.len()..]", detail=str(sl))
-    for bi, s in sl:
-        ctx.check(has_fact(b, bi, roles, ("true", "str::starts_with(source,prefix)", None)), rule, fn, "slice:guard", "only when the source starts with that same prefix", ctx.site(b, bi))
+    spx = [(bi, q.shape(b.expr_of_call(t), roles)) for bi, t in q.calls_to(b, "str::<impl str>::strip_prefix")] if not sl else []
+    if spx:
+        # `if let Some(rest) = source.strip_prefix(prefix) { *source = rest.into(); break }`: test and cut in one call
+        ok_sp = [s_ for _, s_ in spx] in (["str::strip_prefix(source,String::as_str(prefix))"], ["str::strip_prefix(source,prefix)"])
+        uses = [(bi, q.shape(b.expr_of_call(t), roles)) for bi, t in b.calls() if q.shape(b.expr_of_call(t), roles) in ("try(%s)" % spx[0][1],) and q.nice(t.get("callee")) in ("Into::into", "From::from", "Arc::from")]
+        ctx.check(ok_sp and len(uses) == 1, rule, fn, "slice", "the stripped name is what strip_prefix(prefix) leaves of the source", detail=str(spx) + str(uses))
+        sl = [(bi, "strip_prefix") for bi, _ in uses]
+        for bi, _ in sl:
+            ctx.check(has_fact(b, bi, roles, *opt_fact("some", spx[0][1])), rule, fn, "slice:guard", "only when the source starts with that same prefix", ctx.site(b, bi))
+    else:
+        ctx.check(sorted(set(s for _, s in sl)) in (["source[RangeFrom{start:String::len(prefix)}]"], ["source[RangeFrom{start:str::len(prefix)}]"]), rule, fn, "slice", "the stripped name is source[prefix.len()..]", detail=str(sl))
+        for bi, s in sl:
+            ctx.check(has_fact(b, bi, roles, ("true", "str::starts_with(source,prefix)", None)), rule, fn, "slice:guard", "only when the source starts with that same prefix", ctx.site(b, bi))
     if pfx:
         pushes = [(bi, q.shape(b.expr_of_call(t), roles)) for bi, t in q.calls_to(b, "String::push")]
         ok = [s for _, s in pushes] == ["String::push(prefix,47)"] and all(has_fact(b, bi, roles, ("false", "str::ends_with(prefix,47)", None)) for bi, _ in pushes)
@@ -239,7 +249,7 @@ def strip_prefixes(ctx, rule):
         # the same normalisation as a value: the prefix borrowed when it ends in '/', otherwise format!("{prefix}/")
         P = "try(Iterator::next(var:Iter<S>))"
         ds = {sh: site for sh, site, _ in q.def_shapes(b, cow[0], {})}
-        owned = 'Cow::Owned{0:hint::must_use(fmt::format(Arguments::new(b"\\xc0\\x01/\\x00",array(Argument::new_display(tuple(%s).0)))))}' % P
+        owned = 'Cow::Owned{0:hint::must_use(fmt::format(Arguments::new(b"\\xc0\\x01/\\x00",array(Argument::new_display(%s)))))}' % P
         ok = set(ds) == {"Cow::Borrowed{0:%s}" % P, owned} and has_fact(b, ds["Cow::Borrowed{0:%s}" % P][0], {}, ("true", "str::ends_with(%s,47)" % P, None)) \
             and has_fact(b, ds[owned][0], {}, ("false", "str::ends_with(%s,47)" % P, None))
     ctx.check(ok, rule, fn, "slash", "a '/' is appended to the prefix exactly when it is missing")
@@ -463,7 +473,9 @@ def map_new(ctx, rule):
         return
     want = {"file": ["arg1"], "tokens": ["arg2"], "names": ["arg3"], "sources": ["arg4"],
             "sources_content": ["Iterator::collect(Iterator::map(IntoIterator::into_iter(Option::unwrap_or_default(arg5)),\u03bb(Option::map(p1,fn:SourceView::new))))",
-                                "Iterator::collect(Iterator::map(IntoIterator::into_iter(Option::unwrap_or_default(arg5)),\u03bb(Option::map(p1,\u03bb(SourceView::new(p1))))))"]}
+                                "Iterator::collect(Iterator::map(IntoIterator::into_iter(Option::unwrap_or_default(arg5)),\u03bb(Option::map(p1,\u03bb(SourceView::new(p1))))))",
+                                # the same with the missing list spelled out: `match c { Some(v) => v.into_iter().map(..).collect(), None => Vec::new() }`
+                                "Option::map_or(arg5,Vec::new(),\u03bb(Iterator::collect(Iterator::map(IntoIterator::into_iter(p1),\u03bb(Option::map(p1,fn:SourceView::new))))))"]}
     for fld, alts in want.items():
         sh = q.shape(lit[0].field(fld))
         ctx.check(sh in alts, rule, b.path, "stores:%s" % fld, "the %s argument is stored whole" % fld, detail=sh[:200])
@@ -618,7 +630,7 @@ def flatten_translation(ctx, rule):
     def alternatives(expr):
         """[(shape, (bb, idx))]: the expression itself, or each definition if it is a multiply
         assigned local (if/else value)."""
-        x = expr
+        x = q.tuple_component(expr)
         while isinstance(x, Named):
             x = x.x
         if isinstance(x, Var) and not x.is_arg and x.local not in r:
@@ -675,6 +687,13 @@ def flatten_translation(ctx, rule):
     ctx.check(sorted(ms) == want, rule, fn, "arms", "regular sections are borrowed, nested indexes flattened recursively (error propagated), Hermes sections use their inner map", detail=str(ms))
     errs = [bi for bi, si in q.err_variant_constructions(b, "CannotFlatten")]
     ok = any(has_fact(b, bi, r, *opt_fact("none", "SourceMapSection::get_sourcemap(section)")) for bi in errs)
+    if not ok:
+        # `section.get_sourcemap().ok_or_else(|| Error::CannotFlatten(..))?`: the same error, built by the closure
+        res = [e_ for sh, _, e_ in q.def_shapes(b, 0, r) if sh.startswith("FromResidual::from_residual(break(Try::branch(Option::ok_or_else(SourceMapSection::get_sourcemap(section),")]
+        for e_ in res:
+            cb = q.callable_body(e_)
+            ok = ok or (cb is not None and bool(q.err_variant_constructions(cb, "CannotFlatten")))
+        ok = ok or any(sh.startswith("FromResidual::from_residual(break(Try::branch(Option::ok_or(SourceMapSection::get_sourcemap(section),") and "CannotFlatten" in sh for sh, _, _ in q.def_shapes(b, 0, r))
     ctx.check(ok, rule, fn, "unresolved:error", "a section without an embedded map makes flatten fail with CannotFlatten")
     # ... every one of them: no path on which the section is known to have no map leads on to the next section
     heads = [bi for bi, t in q.calls_to(b, "Iterator::next") if "SourceMapIndex::sections(arg1)" in q.shape(b.expr_of_call(t), r) or "SourceMapSectionIter" in q.shape(b.expr_of_call(t), r)]
